@@ -261,3 +261,47 @@ pub fn on_packet_authenticated_native(has_pn: bool) -> u32 {
     assert!(conn.permit_idle_reset);
     1
 }
+
+/// Native replay body for the E2 query `e2_peer_params_cid_auth` (C14 / C04, RFC 9000 §7.3): the
+/// peer's transport parameters are accepted exactly when the connection IDs they echo are the ones
+/// this endpoint saw on the wire (a client additionally checks original_dst_cid and retry_src_cid);
+/// rejected parameters are never applied.
+pub fn peer_params_cid_auth_native(server: bool, which: u8) -> u32 {
+    let mut conn = mk_conn(server, false);
+    let (a, b, x, y) = (ConnectionId::new(&[0xa1; 20]), ConnectionId::new(&[0xb2; 8]), ConnectionId::new(&[0xc3; 5]), ConnectionId::new(&[0xc3; 6]));
+    // differs from `a` in the last byte only
+    let mut a2 = [0xa1; 20];
+    a2[19] = 0xa0;
+    let a2 = ConnectionId::new(&a2);
+    conn.orig_rem_cid = a;
+    conn.initial_dst_cid = b;
+    conn.retry_src_cid = None;
+    let mut params = TransportParameters::default();
+    params.initial_max_data = VarInt::from_u32(777);
+    params.initial_src_cid = Some(a);
+    params.original_dst_cid = Some(b);
+    params.retry_src_cid = None;
+    // expected verdict for a client; a server only checks initial_src_cid
+    let (client_ok, server_ok) = match which {
+        0 => (true, true),
+        1 => { params.initial_src_cid = Some(a2); (false, false) }
+        2 => { params.initial_src_cid = None; (false, false) }
+        3 => { params.original_dst_cid = Some(x); (false, true) }
+        4 => { conn.retry_src_cid = Some(x); (false, true) }
+        5 => { params.retry_src_cid = Some(x); (false, true) }
+        6 => { conn.retry_src_cid = Some(x); params.retry_src_cid = Some(x); (true, true) }
+        7 => { conn.retry_src_cid = Some(x); params.retry_src_cid = Some(y); (false, true) }
+        8 => { params.original_dst_cid = None; (false, true) }
+        _ => return 0,
+    };
+    let want = if server { server_ok } else { client_ok };
+    let before = conn.peer_params.initial_max_data;
+    let r = conn.handle_peer_params(params);
+    assert!(r.is_ok() == want, "CID authentication verdict: accepted={} expected={}", r.is_ok(), want);
+    if want {
+        assert!(conn.peer_params.initial_max_data == VarInt::from_u32(777), "accepted parameters were not applied");
+    } else {
+        assert!(conn.peer_params.initial_max_data == before, "rejected parameters were applied");
+    }
+    1
+}
